@@ -992,8 +992,36 @@ def cases(tier):
     for T in ('float', 'double'):
         for lay in ('xyzw', 'wxyz'):
             cs += type_cases(T, lay, tier)
+    cs += ctor_order_cases(cs)
     cs += canaries()
     return cs
+
+
+CFG_CTOR_XYZW = Cfg('quat_ctor_xyzw', headers=HDR, defines=('GLM_ENABLE_EXPERIMENTAL', 'GLM_FORCE_QUAT_DATA_XYZW'))
+
+
+def ctor_order_cases(cs):
+    """GLM_FORCE_QUAT_DATA_XYZW only changes the argument order of the four-scalar constructor: every kernel of the default layout that does not itself
+    call that constructor must yield the same term in every output lane (a library function that builds a quaternion with qua(a, b, c, d) instead of
+    qua::wxyz(...) silently permutes components under this macro)"""
+    import re
+    out = []
+    seen = set()
+    for c in cs:
+        for k in c.kernels:
+            if k.cfg is not CFGS['xyzw'] or k.name in seen:
+                continue
+            seen.add(k.name)
+            if re.search(r'qua<[^>]*>\s*\(|quat\s*\(|dquat\s*\(', k.source().split('{', 1)[1]) and re.search(r'\([^()]*,[^()]*,[^()]*,[^()]*\)', k.source().split('{', 1)[1]):
+                continue          # the kernel spells a four-scalar construction itself: its meaning legitimately changes
+            kc = K(k.name + '__ctor_xyzw', k.params, k.body, CFG_CTOR_XYZW, meta=k.meta, pre=getattr(k, 'pre', ''))
+            outs = []
+            for pr in k.params:
+                if not pr[4]:
+                    for off in range(0, pr[3], pr[2]):
+                        outs.append(('%s@%d' % (pr[0], off), pr[0], off, off, pr[2]))
+            out.append(L.config_pair_case('%s@ctor_xyzw' % k.name[2:], 'ctor_order', k, kc, outs, what='GLM_FORCE_QUAT_DATA_XYZW'))
+    return out
 
 
 def canaries():
